@@ -577,24 +577,6 @@ def _c02_subscript_looping(rec):
     return False
 
 
-@classifier("hoisted-imports-bind-one-name-to-different-modules")
-def _c02_hoisted_alias(rec):
-    """move_imports_to_toplevel hoists function-local imports to module level; two functions that bind the same local name to different modules
-    (`import shlex as alias_mod` / `import string as alias_mod`) end up sharing one global, the last one wins."""
-    b = _behaviour(rec, {"fixes.move_imports_to_toplevel"})
-    if not b:
-        return False
-    _, _, _, tb, ta = b
-    bound = {}
-    for n in ast.walk(tb):
-        if isinstance(n, (ast.Import, ast.ImportFrom)):
-            for a in n.names:
-                key = a.asname or a.name.split(".")[0]
-                origin = (getattr(n, "module", None), a.name)
-                bound.setdefault(key, set()).add(origin)
-    return any(len(v) > 1 for v in bound.values())
-
-
 @classifier("rebound-definition-renamed-inconsistently")
 def _c19_rebound_def(rec):
     """A function or class name that is also the target of an assignment (`def dup2` ... `dup2 = dup1`) is renamed by two different conventions
